@@ -30,6 +30,13 @@ class VmMath:
     def reset(self) -> None:
         self._eval_stack.clear()
 
+    def stack_height(self) -> int:
+        return self._eval_stack.height()
+
+    def trim_stack(self, height) -> None:
+        if height is not None:
+            self._eval_stack.trim(height)
+
     def push(self, srce) -> None:
         value = None
         if (isinstance(srce, Number) or
